@@ -125,6 +125,7 @@ type spkConfig struct {
 	BGPAdvs []metallbv1beta1.BGPAdvertisement
 	Peers   []metallbv1beta2.BGPPeer
 	Comms   []metallbv1beta1.Community
+	Secrets []v1.Secret
 }
 
 type spkSvcVariant struct {
@@ -258,7 +259,7 @@ func (s *spkSys) putNode(name string, vi int) {
 }
 
 func (s *spkSys) putConfig(j int) {
-	for _, k := range []string{"IPAddressPool", "L2Advertisement", "BGPAdvertisement", "BGPPeer", "Community"} {
+	for _, k := range []string{"IPAddressPool", "L2Advertisement", "BGPAdvertisement", "BGPPeer", "Community", "Secret"} {
 		s.store.RemoveAll(k)
 	}
 	c := s.u.Configs[j]
@@ -276,6 +277,9 @@ func (s *spkSys) putConfig(j int) {
 	}
 	for i := range c.Comms {
 		s.store.Put(c.Comms[i].DeepCopy())
+	}
+	for i := range c.Secrets {
+		s.store.Put(c.Secrets[i].DeepCopy())
 	}
 	s.cfgIdx = j
 }
@@ -442,6 +446,16 @@ func (s *spkSys) observable() string {
 	for _, p := range ps {
 		fmt.Fprintf(&b, "bgp %s %v\n", p, live[p])
 	}
+	// the parameters each live session was created with (a session kept across a configuration change must be the
+	// session a fresh speaker would open)
+	var sl []string
+	for _, rs := range s.mgr.sessions {
+		if !rs.closed {
+			sl = append(sl, fmt.Sprintf("bgp-session %s %+v\n", rs.name, rs.params))
+		}
+	}
+	sort.Strings(sl)
+	b.WriteString(strings.Join(sl, ""))
 	return b.String()
 }
 
